@@ -933,7 +933,15 @@ class QueryBuilder(Selectable, Term):  # type:ignore[misc]
             A copy of the query with the tables replaced.
         """
         self._from = [
-            new_table if table == current_table else table  # type:ignore[misc]
+            (
+                new_table
+                if table == current_table
+                else (
+                    table.replace_table(current_table, new_table)
+                    if isinstance(table, (QueryBuilder, _SetOperation))
+                    else table
+                )
+            )  # type:ignore[misc]
             for table in self._from
         ]
         if self._insert_table == current_table:
